@@ -79,7 +79,7 @@ def bin_completion(binner: Binner, binsize: float, items: List[Any])->BinsArray:
     items = [item for item in items if binner.valueof(item)!=0]
 
     # Find the BFD solution and check if it's optimal using the lower bound calculation.
-    bfd_solution = best_fit.decreasing(BinnerKeepingContents(binner.valueof), binsize, items)
+    bfd_solution = best_fit.decreasing(binner, binsize, items)
     lb = lower_bound(binsize, map(binner.valueof, items))
 
     # If the BFD solution is optimal - return it.
